@@ -85,6 +85,8 @@ FramingFields(r) ==
       [] r.framing = "cl"      -> <<[lname |-> "content-length", style |-> r.clStyle, words |-> <<ToDec(r.bodyLen)>>]>>
       [] r.framing = "chunked" -> <<[lname |-> "transfer-encoding", style |-> r.clStyle, words |-> <<"chunked">>]>>
 
+\* optional field noAnnounce: the trailer fields are sent without a "Trailer:" header announcing them (still well-formed)
+Announced(r) == ~("noAnnounce" \in DOMAIN r /\ r.noAnnounce)
 TrailerNames(r) == JoinWith([k \in 1 .. Len(r.trailers) |-> r.trailers[k].name], ", ")
 
 Head_(r) ==
@@ -92,7 +94,7 @@ Head_(r) ==
     r.method \o " " \o r.target \o " HTTP/" \o r.ver \o CRLF
     \o ConcatStr([k \in 1 .. Len(r.fields) |-> FieldLine(r.fields[k])])
     \o ConcatStr([k \in 1 .. Len(FramingFields(r)) |-> FieldLine(FramingFields(r)[k])])
-    \o (IF r.trailers # << >> THEN "Trailer: " \o TrailerNames(r) \o CRLF ELSE "")
+    \o (IF r.trailers # << >> /\ Announced(r) THEN "Trailer: " \o TrailerNames(r) \o CRLF ELSE "")
     \o (IF r.expect100 THEN "Expect: 100-continue" \o CRLF ELSE "")
     \o (IF r.close THEN "Connection: close" \o CRLF ELSE IF r.ver = "1.0" THEN "Connection: keep-alive" \o CRLF ELSE "")
     \o CRLF
